@@ -69,8 +69,9 @@ def replay_harness(prop, group, feats, res, caps, logdir, env, cargo_kani_base, 
     name = res["name"]
     full = res.get("full_name", name)
     t0 = time.time()
-    cmd = cargo_kani_base(group, feats) + ["--harness", full, "--exact", "-Z", "concrete-playback",
-                                           "--concrete-playback=print"]
+    base = cargo_kani_base(group, feats, extra=False)
+    tail = cargo_kani_base(group, feats)[len(base):]  # per-property extra args (--cbmc-args last)
+    cmd = base + ["--harness", full, "--exact", "-Z", "concrete-playback", "--concrete-playback=print"] + tail
     log = os.path.join(logdir, name + ".playback.log")
     with open(log, "w") as out:
         try:
